@@ -85,12 +85,20 @@ def negated_dir_pattern(tree: dict) -> bool:
 def classify(kf, rec):
     c = rec["case"]
     cl = kf.get("classifier")
+    if cl == "dir-contents-pattern-prunes-directory":
+        has = False
+        for comps, spec in [((), {"d": c["tree"]})] + list(treegen.tree_paths(c["tree"])):
+            if "d" in spec and ".gitignore" in spec["d"]:
+                if any(l.strip().endswith("/**") and not l.strip().startswith("!") for l in spec["d"][".gitignore"]["text"].splitlines()):
+                    has = True
+        return has and has_negation(c["tree"]) and bool(c.get("missing_but_git_keeps")) and not c.get("listed_but_git_ignores") and "respect off" not in rec["what"]
     if cl == "negated-directory-pattern":
         return negated_dir_pattern(c["tree"]) and "respect off" not in rec["what"] and not c.get("missing_but_git_keeps")
     return False
 
 
 REPRO = {
+    "D-79": {"docs": {"d": {".gitignore": {"text": "sub/**\n"}, "sub": {"d": {".gitignore": {"text": "!README.md\n"}, "README.md": {"f": 1}, "x.md": {"f": 1}}}}}},
     "D-59": {".gitignore": {"text": "[ab].md\n!docs/\n"}, "c.md": {"f": 1}, "docs": {"d": {"b.md": {"f": 1}, "x.md": {"f": 1}}}},
 }
 
